@@ -25,6 +25,7 @@ var c19Docs = []struct{ name, text string }{
 	{"scalar", "sc7\n"},
 	{"null", "null\n"},
 	{"false", "false\n"},
+	{"false-capitalised", "a: False\nc: FALSE\n"},
 	{"bad", "a: [\n"},
 	{"seq-of-maps", "- {a: v1, b: 42}\n- {a: w2, b: {n: deep9}}\n"},
 	{"attribute-key-with-a-map", "r:\n  +@id: {deep8: leaf9}\n  c: t7\n"}, // what the XML encoder takes for an attribute holds a map
@@ -105,7 +106,7 @@ func c19GetFacts(files [][]int, expr string) *c19Facts {
 				v := impl.ToV(r)
 				f.results = append(f.results, v)
 				collect(v)
-				if v.K != val.Null && !(v.K == val.Bool && v.S == "false") {
+				if v.K != val.Null && !(v.K == val.Bool && strings.EqualFold(v.S, "false")) {
 					f.anyTruthy = true
 				}
 			}
@@ -370,8 +371,8 @@ func c19Run(c *fw.Ctx) error {
 	for a := range c19Docs {
 		for b := range c19Docs {
 			// quick: the document that holds an infinity is paired with itself and with the first three documents only
-			if inf := len(c19Docs) - 2; !c.Thorough() && (a == inf || b == inf) && a != b && a > 2 && b > 2 {
-				continue
+			if inf, capF := len(c19Docs)-2, 4; !c.Thorough() && (a == inf || b == inf || a == capF || b == capF) && a != b && a > 2 && b > 2 {
+				continue // (likewise the document with the capitalised spellings of false)
 			}
 			hist = append(hist, [][]int{{a, b}}, [][]int{{a}, {b}})
 		}
